@@ -384,6 +384,8 @@ func BuildSidecarOutboundVirtualHosts(node *model.Proxy, push *model.PushContext
 			AllowAny:        util.IsAllowAnyOutbound(node) || util.IsAllowAnyDynamicDNSOutbound(node),
 			CatchAllCluster: catchAllCluster(node),
 			IPMode:          node.GetIPMode(),
+			AttemptCount:    includeRequestAttemptCount,
+			XForwardedHost:  util.GetProxyHeaders(node, push, istionetworking.ListenerClassSidecarOutbound).XForwardedHost,
 			ListenerPort:    listenerPort,
 			Services:        services,
 			VirtualServices: virtualServices,
